@@ -357,7 +357,7 @@ def rule_lean(form_line):
 
 VEX_REG_CLASSES = {"rvm": (0x72, 0x75), "rm": (0x68, 0x6B), "rvmi": (0x7A, 0x7C), "rmi": (0x6F, 0x71),
                    # legacy space: ExtRm, ExtRm_P, X86Rm, X86Rm_NoSize ([reg, rm]); X86Mr, X86Mr_NoSize ([rm, reg]); ExtRmi, ExtRmi_P ([reg, rm, imm8])
-                   "lrm": (0x4A, 0x4D, 0x14, 0x16, 0x21), "lmr": (0x17, 0x18), "lrmi": (0x52, 0x53), "lop": (0x01,),
+                   "lrm": (0x4A, 0x4D, 0x14, 0x16, 0x21, 0x56, 0x2C), "lmr": (0x17, 0x18, 0x56, 0x2C), "lrmi": (0x52, 0x53), "lop": (0x01,),
                    # X86Arith, X86Test, register-register: the class emits the [rm, reg] form; 8-bit operands in both kinds (gpb, gpbhi)
                    "larith": (0x19, 0x3D),
                    # X86Rot: shift / rotate a register by an imm8 ([rm, imm8] with an opcode-extension digit), all operand sizes
@@ -373,9 +373,13 @@ VEX_REG_CLASSES = {"rvm": (0x72, 0x75), "rm": (0x68, 0x6B), "rvmi": (0x7A, 0x7C)
                    # VexMr_Lx, VexMri / VexMri_Lx: r/m operand first
                    "mr": (0x62,), "mri": (0x64, 0x65),
                    # X86Lea: `lea reg, mem` (the memory operand has no register alternative: only the register kind is listed)
-                   "llea": (0x2B,)}
+                   "llea": (0x2B,),
+                   # X86Jcc / X86Jmp / X86Call to a bound label: rel8 and rel32 forms
+                   "lrel": (0x26, 0x28, 0x1C),
+                   # X86Arith `op r16/r32/r64, imm` (81 /d iw|id, 83 /d ib)
+                   "larithimm": (0x19,), "laccimm": (0x19, 0x3D), "lrotx": (0x37,), "lm": (0x0E, 0x38), "lmovri": (0x2C,), "lmovrmi": (0x2C,), "lmovmi": (0x2C,), "larithmi": (0x19,)}
 SHAPE_ROLES = {"rvm": ["reg", "vvvv", "rm"], "rm": ["reg", "rm"], "rvmi": ["reg", "vvvv", "rm", "imm"], "rmi": ["reg", "rm", "imm"],
-               "lrm": ["reg", "rm"], "lmr": ["rm", "reg"], "lrmi": ["reg", "rm", "imm"], "lop": None, "larith": ["rm", "reg"], "lrot": ["rm", "imm"], "larithi8": ["rm", "imm"], "lopreg": ["opc"], "larithrm": ["reg", "rm"], "lmov": ["rm", "reg"], "lmovrm": ["reg", "rm"], "mr": ["rm", "reg"], "mri": ["rm", "reg", "imm"], "llea": ["reg", "rm"]}
+               "lrm": ["reg", "rm"], "lmr": ["rm", "reg"], "lrmi": ["reg", "rm", "imm"], "lop": None, "larith": ["rm", "reg"], "lrot": ["rm", "imm"], "larithi8": ["rm", "imm"], "lopreg": ["opc"], "larithrm": ["reg", "rm"], "lmov": ["rm", "reg"], "lmovrm": ["reg", "rm"], "mr": ["rm", "reg"], "mri": ["rm", "reg", "imm"], "llea": ["reg", "rm"], "lrel": ["rel"], "larithimm": ["rm", "imm"], "laccimm": ["none", "imm"], "lrotx": ["rm", "none"], "lm": ["rm"], "lmovri": ["opc", "imm"], "lmovrmi": ["rm", "imm"], "lmovmi": ["rm", "imm"], "larithmi": ["rm", "imm"]}
 
 
 def class_rows_lean(kept, rows, chunk=96):
@@ -398,7 +402,17 @@ def class_rows_lean(kept, rows, chunk=96):
                     continue
             elif roles != SHAPE_ROLES[shape]:
                 continue
+            if int(r[1]) == 0x2C and shape in ("lrm", "lmr") and not any(o["reg"] in ("creg", "dreg") for o in f["operands"]):
+                continue      # X86Mov: only the control / debug register moves go through the generic [reg, rm] / [rm, reg] theorems
+            if shape in ("larithmi", "lmovmi") and not f["operands"][0]["mem"]:
+                continue
+            if shape == "lmovrmi" and f["operands"][0]["reg"] != "r64":
+                continue      # the class uses C7 /0 with a register only for `mov r64, imm32` (sign-extended)
+            if shape == "lmovri" and f["operands"][0]["reg"] not in ("r16", "r32", "r64"):
+                continue
             if shape == "larithi8" and f["operands"][0]["reg"] != "r8":
+                continue
+            if shape == "larithimm" and f["operands"][0]["reg"] not in ("r16", "r32", "r64"):
                 continue
             if shape in ("lmov", "lmovrm") and any(o["reg"] not in ("r8", "r16", "r32", "r64") for o in f["operands"]):
                 continue
@@ -412,12 +426,23 @@ def class_rows_lean(kept, rows, chunk=96):
             okf = True
             for o, role in zip(f["operands"] if shape != "lop" else [], roles):
                 if role == "imm":
-                    if o["imm"] != 8:
+                    if o["imm"] != 8 and shape not in ("larithimm", "laccimm", "lmovri", "lmovrmi", "lmovmi", "larithmi"):
                         okf = False
                     continue
-                if shape == "llea" and not o["reg"]:
+                if shape in ("llea", "lm") and not o["reg"]:
                     continue
-                if o["reg"] not in CLASS or (len(CLASS[o["reg"]]) != 1 and shape not in ("larith", "lrot", "larithi8", "larithrm", "lmov", "lmovrm")) or o["implicit"]:
+                if role == "rel":
+                    continue
+                if shape == "lrotx" and role == "none":      # fixed `cl` / implied `1`: not encoded
+                    continue
+                if shape == "laccimm":      # fixed accumulator operand, not encoded
+                    acc = {"al": "gpb", "ax": "gpw", "eax": "gpd", "rax": "gpq"}.get(o["reg"])
+                    if not acc or o["implicit"]:
+                        okf = False
+                        break
+                    kinds.append((acc,))
+                    continue
+                if o["reg"] not in CLASS or (len(CLASS[o["reg"]]) != 1 and shape not in ("larith", "lrot", "larithi8", "larithrm", "lmov", "lmovrm", "larithimm", "lrotx", "lm", "lmovmi", "larithmi")) or o["implicit"]:
                     okf = False
                     break
                 kinds.append(CLASS[o["reg"]])
